@@ -17,6 +17,8 @@ _conv = {}
 def conv(ctype, v):
     """value of `v` converted to C type `ctype` (uninterpreted per type; identity is NOT assumed)"""
     ctype = " ".join(ctype.split())
+    if ctype in ("char", "uint8_t"):
+        ctype = "byte"     # representation-independent: a byte stored in a string/raw buffer
     if ctype not in _conv:
         _conv[ctype] = z3.Function("conv_" + ctype.replace(" ", "_").replace("*", "p"), I, I)
     return _conv[ctype](v)
